@@ -44,10 +44,7 @@ func mergeViol(dst map[string]*violRec, src map[string]*violRec) {
 		if r := dst[k]; r == nil {
 			dst[k] = v
 		} else {
-			r.Count += v.Count
-			if fmt.Sprint(v.Replay) < fmt.Sprint(r.Replay) {
-				r.Replay = v.Replay
-			}
+			r.absorb(v)
 		}
 	}
 }
@@ -103,10 +100,13 @@ func TestC14(t *testing.T) {
 
 	// ---- part (b) and (c): goroutines, one bubble per block; nothing there touches the global math/rand ----
 	tA := time.Since(t0)
+	fmt.Fprintf(os.Stderr, "[C14] part a done in %.1fs\n", tA.Seconds())
 	b := runPartB(t, rep, thorough)
 	tB := time.Since(t0) - tA
+	fmt.Fprintf(os.Stderr, "[C14] part b done in %.1fs\n", tB.Seconds())
 	c := runPartC(t, thorough)
 	tC := time.Since(t0) - tA - tB
+	fmt.Fprintf(os.Stderr, "[C14] part c done in %.1fs\n", tC.Seconds())
 	for _, e := range c.EngineErrors {
 		rep.EngineError("%s", e)
 	}
@@ -179,43 +179,44 @@ func TestC14(t *testing.T) {
 	rep.Coverage["distinct_observed_outcomes"] = len(outcomes)
 	rep.Coverage["observed_outcomes"] = outcomes
 	rep.Coverage["part_a_retry"] = map[string]any{
-		"configurations":              a.Configs,
-		"cases_distinct_prefixes":     a.Cases,
-		"executions_bubbles":          a.Executions,
-		"nontrivial":                  a.Nontrivial,
-		"scripts_decided":             a.ScriptsCover,
-		"scripts_in_bound":            a.ScriptsTotal,
-		"alphabet":                    symNames,
-		"race_repetitions":            raceReps,
-		"max_virtual_time_of_a_run":   a.MaxVirtual.String(),
-		"disabled_policy_retried":     a.DisabledRetry,
-		"bound":                       fmt.Sprintf("enabled x attempts 1..%d x {constant, linear, exponential} x min/max grid, disabled x RetryMax {0,1,3}; APIs RetryIf and RetryOnError; context on entry live/cancelled/expired; every script of length <= attempts over the alphabet", maxAttempts),
+		"configurations":            a.Configs,
+		"cases_distinct_prefixes":   a.Cases,
+		"executions_bubbles":        a.Executions,
+		"nontrivial":                a.Nontrivial,
+		"scripts_decided":           a.ScriptsCover,
+		"scripts_in_bound":          a.ScriptsTotal,
+		"alphabet":                  symNames,
+		"race_repetitions":          raceReps,
+		"max_virtual_time_of_a_run": a.MaxVirtual.String(),
+		"disabled_policy_retried":   a.DisabledRetry,
+		"bound":                     fmt.Sprintf("enabled x attempts 1..%d x {constant, linear, exponential} x min/max grid, disabled x RetryMax {0,1,3}; APIs RetryIf and RetryOnError; context on entry live/cancelled/expired; every script of length <= attempts over the alphabet", maxAttempts),
 	}
 	rep.Coverage["part_b_apply"] = map[string]any{
-		"evaluations":                          b.Evaluations,
-		"nontrivial":                           b.Nontrivial,
-		"durations":                            len(durations(thorough)),
-		"attempt_numbers":                      map[string]int{kConstant: len(attemptNumbers(thorough, kConstant)), kLinear: len(attemptNumbers(thorough, kLinear)), kExponential: len(attemptNumbers(thorough, kExponential))},
-		"jitter_seeds_linear":                  map[bool]int{false: 3, true: 4}[thorough],
-		"largest_attempt_number":               1 << 31,
-		"retry_after_values":                   len(retryAfterValues(thorough)) + 1,
-		"statuses":                             "no response, 200, 429, 500, 503",
-		"exponential_monotonicity_pairs":       b.MonotonePairs,
-		"linear_bounds_not_representable":      b.LinearExempt,
+		"evaluations":                           b.Evaluations,
+		"nontrivial":                            b.Nontrivial,
+		"durations":                             len(durations(thorough)),
+		"attempt_numbers":                       map[string]int{kConstant: len(attemptNumbers(thorough, kConstant)), kLinear: len(attemptNumbers(thorough, kLinear)), kExponential: len(attemptNumbers(thorough, kExponential))},
+		"jitter_seeds_linear":                   map[bool]int{false: 3, true: 4}[thorough],
+		"largest_attempt_number":                1 << 31,
+		"retry_after_values":                    len(retryAfterValues(thorough)) + 1,
+		"statuses":                              "no response, 200, 429, 500, 503",
+		"exponential_monotonicity_pairs":        b.MonotonePairs,
+		"linear_bounds_not_representable":       b.LinearExempt,
 		"linear_not_representable_and_negative": b.LinearExNeg,
-		"smallest_wait_seen":                   b.MinWait.String(),
-		"largest_wait_seen":                    b.MaxWait.String(),
+		"smallest_wait_seen":                    b.MinWait.String(),
+		"largest_wait_seen":                     b.MaxWait.String(),
 	}
 	rep.Coverage["part_c_client"] = map[string]any{
-		"configurations":          c.Configs,
-		"cases_distinct_prefixes": c.Cases,
-		"nontrivial":              c.Nontrivial,
-		"gaps_checked":            c.GapsChecked,
-		"scripts_decided":         c.ScriptsCover,
-		"scripts_in_bound":        c.ScriptsTotal,
-		"alphabet":                csymNames,
-		"disabled_policy_retried": c.DisabledRetry,
-		"bound":                   fmt.Sprintf("RetryMax 0..%d (full 12-symbol alphabet up to %d, 9-symbol alphabet above), 3 kinds x Retry-After honoured or not x 4 min/max pairs, disabled policies, context live / cancelled on entry", clientMax, map[bool]int{false: 2, true: 4}[thorough]),
+		"configurations":                   c.Configs,
+		"cases_distinct_prefixes":          c.Cases,
+		"prefixes_equivalent_to_a_sibling": c.Equivalent,
+		"nontrivial":                       c.Nontrivial,
+		"gaps_checked":                     c.GapsChecked,
+		"scripts_decided":                  c.ScriptsCover,
+		"scripts_in_bound":                 c.ScriptsTotal,
+		"alphabet":                         csymNames,
+		"disabled_policy_retried":          c.DisabledRetry,
+		"bound":                            fmt.Sprintf("RetryMax 0..%d (full 12-symbol alphabet up to %d, 9-symbol alphabet above), 3 kinds x Retry-After honoured or not x 4 min/max pairs, disabled policies, context live / cancelled on entry", clientMax, map[bool]int{false: 2, true: 4}[thorough]),
 	}
 	rep.Assume = []string{
 		"third-party internals (retry-go's loop, go-retryablehttp's Do, net/http's client) run unmodified; their only uncontrolled choice — Go's random pick between two ready select cases — is owned by repeating the affected cases 64 times",
